@@ -211,6 +211,12 @@ HARNESSES = [
          encodes=["tinylfu_cached::cache::cached::CacheD::{shutdown,is_shutting_down + every read and write entry point}", "CommandExecutor::{shutdown,spin (worker closure: Shutdown arm + drain)}", "AdmissionPolicy::{shutdown,clear}", "TTLTicker::{shutdown,clear}", "Store::clear"]),
     dict(name="c13_late_send_races_drain", tier="off", file="cached.rs", props=["C13", "C12"], timeout=900,
          encodes=["tinylfu_cached::cache::command::command_executor::CommandExecutor::{shutdown,send,spin (worker closure: Shutdown arm + drain loop)}", "CommandAcknowledgementHandle::done"]),
+    dict(name="c13_late_send_at_dequeue_1", tier="quick", group="c13_late_send_at_dequeue", file="cached.rs", props=["C13"], timeout=600,
+         encodes=["CommandExecutor::spin (Shutdown arm, drain loop)", "CommandExecutor::send", "CommandAcknowledgementHandle::done"]),
+    dict(name="c13_late_send_at_dequeue_2", tier="quick", group="c13_late_send_at_dequeue", file="cached.rs", props=["C13"], timeout=600,
+         encodes=["CommandExecutor::spin (Shutdown arm, drain loop)", "CommandExecutor::send", "CommandAcknowledgementHandle::done"]),
+    dict(name="c13_late_send_at_dequeue_3", tier="quick", group="c13_late_send_at_dequeue", file="cached.rs", props=["C13"], timeout=600,
+         encodes=["CommandExecutor::spin (Shutdown arm, drain loop)", "CommandExecutor::send", "CommandAcknowledgementHandle::done"]),
     dict(name="c13_command_behind_shutdown_is_answered", tier="quick", file="cached.rs", props=["C13", "C12"], timeout=900,
          encodes=["tinylfu_cached::cache::command::command_executor::CommandExecutor::{shutdown,send,spin (worker closure: drain loop)}"]),
     dict(name="c10_sweep_with_stale_entry", tier="off", file="cached.rs", props=["C10"], timeout=1200,
@@ -293,8 +299,8 @@ PROPERTY_NOTES = {
         outside="weak-memory reorderings of the Release/Acquire pair (CBMC is sequentially consistent); two polls crossing each other",
         explanation="no poll yields Ready(Pending); every Ready carries the status passed to done(); the most recent poller that was told Pending is woken; after completion every poll yields the same status. The window between the flag store and the status write is the recorded finding F2"),
     "C13": dict(
-        bounds="commands queued behind Shutdown are answered ShuttingDown and not executed, the one ahead runs (real worker closure incl. drain loop); sweeper terminates at its first tick after shutdown(), clear() empties the index; consumer terminates on the Shutdown event, later hand-overs are counted as dropped, clear() resets statistics",
-        outside="the API gate after shutdown(), shutdown on a full queue and a send racing the drain (harnesses built, do not complete: DESIGN.md section 4); liveness of OS threads",
+        bounds="commands queued behind Shutdown are answered ShuttingDown and not executed, the one ahead runs (real worker closure incl. drain loop); a writer already past the gate sends its command at the 1st / 2nd / 3rd dequeue operation of the worker (one harness per placement; queue [Shutdown, Delete]): the send fails or its acknowledgement is resolved ShuttingDown, nothing stays queued; sweeper terminates at its first tick after shutdown(), clear() empties the index; consumer terminates on the Shutdown event, later hand-overs are counted as dropped, clear() resets statistics",
+        outside="the API gate after shutdown(), shutdown on a full queue, and a late send placed by the solver at any shared-memory operation of the drain instead of at the dequeue operations (harnesses built, do not complete: DESIGN.md section 4); liveness of OS threads",
         explanation="per-actor exit obligations: worker drain answers everything queued behind Shutdown, sweeper and consumer stop"),
     "C14": dict(
         bounds="kernels: all 2^16 contents of a 2-byte row x 4 positions; next_power_2: all counters in 1..=2^63 (full width); "
@@ -339,7 +345,7 @@ _LEVEL = {
     "C10": "Bounded check of the real sweeper closure (one tick at any instant over arbitrary index contents) and of the expiry-index operations keeping each id in the shard of its current expiry.",
     "C11": "Bounded check of an unawaited put followed by a delete of the same key through the real worker (exactly-once, FIFO by ghost sequence numbers, key absent afterwards) plus the per-call obligation: one write call -> one queued command carrying the caller's acknowledgement.",
     "C12": "Bounded check of done()/poll() with one interfering poll (or done) placed by the solver at every shared-memory access of the other operation: never Ready(Pending), real status, wake-up of the last pending poller; the flag-before-status window is a recorded finding.",
-    "C13": "Bounded check of the worker's drain after Shutdown (everything behind it answered ShuttingDown, nothing executed), of the sweeper's and the consumer's exit and of clear(); the API gate and races inside shutdown() are not decided (harnesses do not complete, DESIGN.md section 4).",
+    "C13": "Bounded check of the worker's drain after Shutdown (everything behind it answered ShuttingDown, nothing executed), of a late send placed at each dequeue operation of the draining worker, of the sweeper's and the consumer's exit and of clear(); the API gate and races inside shutdown() are not decided (harnesses do not complete, DESIGN.md section 4).",
     "C14": "Bounded model checking of the real sketch code: packed-counter kernels over all byte values and positions, sizing over all counters 1..=2^63, one-step inductive obligations from arbitrary sketch contents, seeds and hashes at width 4, constructor for counters 1..=9, TinyLFU window/threshold logic with a solver-chosen doorkeeper.",
     "C15": "Bounded check of the access-accounting identity for one record from arbitrary pool/buffer/queue states incl. saturated and stopped consumer, and that the hit path takes one lock and never blocks.",
     "C16": "Bounded check of every statistics counter method, the weight-statistics identity, hit/miss accounting of reads, and the hit ratio (counters <= 255); the all-hit ratio 0 is a recorded finding.",
